@@ -6,6 +6,8 @@ package reporter
 // constructors/accessors for ExistingComment/PendingComment and entry points to the unexported helpers.
 
 import (
+	"context"
+
 	"github.com/google/go-github/v71/github"
 	gitlab "gitlab.com/gitlab-org/api/client-go"
 
@@ -88,4 +90,16 @@ func VerifGitlabDiscussion(p PendingComment, diffs [][3]string) (ok bool, oldPat
 
 func VerifGitlabIsEqual(e ExistingComment, p PendingComment) bool {
 	return GitLabReporter{}.IsEqual(nil, e, p)
+}
+
+// VerifSkipSignal is what the REAL platform code answers from Create for a comment it cannot place (path that is
+// not part of the pull/merge request); no network access happens on that path.  It is whatever the source tree under
+// test returns (a sentinel error since fix 15e1a20, nil before), so the harness' in-memory Commenter signals a skip
+// exactly the way the real reporters do and never needs to name the sentinel itself.
+func VerifSkipSignal(gitlabVariant bool) error {
+	p := PendingComment{path: "verif/not-part-of-the-pull-request.yml", text: "x", line: 1, anchor: checks.AnchorAfter}
+	if gitlabVariant {
+		return GitLabReporter{}.Create(context.Background(), gitlabMR{}, p)
+	}
+	return GithubReporter{}.Create(context.Background(), ghPR{}, p)
 }
